@@ -52,7 +52,7 @@ def short_term(t, n=70):
 
 
 class Site:
-    __slots__ = ("fn", "bb", "kind", "producer", "line", "mac", "callee", "recv", "detail", "discharge")
+    __slots__ = ("fn", "bb", "kind", "producer", "line", "mac", "callee", "recv", "detail", "discharge", "alias")
 
     def __init__(self, fn, bb, kind, producer, line, mac, callee_name=None, recv=None, detail=None):
         self.fn = fn
@@ -65,6 +65,7 @@ class Site:
         self.recv = recv
         self.detail = detail
         self.discharge = None
+        self.alias = None     # (kind, producer) of an equivalent spelling of the same hazard (match-unwrap, first().unwrap())
 
     facts = None
     owner = None   # set by run_census: facts.owner_root (sites of an inlined helper's closures belong to the caller)
@@ -158,17 +159,35 @@ def sites_of(f, facts):
             mk = macro_kind(t.get("mac"))
             recv = None
             prod = ""
+            alias = None
             if kind in ("panic", "assert", "panic-const"):
                 kind = mk.rstrip("!") if mk else kind
                 prod = _panic_guard(f, b, tb)
+                # `match x { Some(v) => v, None => unreachable!()/panic!() }` is `x.unwrap()` spelled out: same hazard, same key
+                gt = _panic_guard_term(f, b, tb)
+                if kind in ("unreachable", "panic") and isinstance(gt, tuple) and gt[0] == "discr" and len(gt) > 2 and \
+                        str(gt[2]) in ("core::option::Option", "core::result::Result"):
+                    alias = ("unwrap", short_term(gt[1]))
             elif argi is not None and t["args"]:
                 recv = tb.operand(t["args"][argi])
                 prod = short_term(recv)
+                if kind == "unwrap" and isinstance(recv, tuple) and recv[0] == "call" and recv[2] and \
+                        mir.strip_generics(recv[1]).rsplit("::", 1)[-1] in ("first", "last", "front", "back", "first_mut", "last_mut") and \
+                        ("slice" in recv[1] or "Vec" in recv[1] or "VecDeque" in recv[1]):
+                    # c.first().unwrap() is c[0] spelled out (c.last().unwrap() is c[len-1]): the hazard is the same index
+                    which = mir.strip_generics(recv[1]).rsplit("::", 1)[-1]
+                    alias = ("index", short_term(recv[2][0]) + ("[0]" if which.startswith(("first", "front")) else "[last]"))
                 if kind == "index" and len(t["args"]) > 1:
-                    prod += "[" + short_term(tb.operand(t["args"][1]), 40) + "]"
+                    ix = tb.operand(t["args"][1])
+                    prod += "[" + short_term(ix, 40) + "]"
+                    if ix == ("const", 0):
+                        # c[0] is c.first().unwrap() spelled out
+                        alias = ("unwrap", short_term(("call", "core::slice::<impl [T]>::first", (recv,))))
             if mk in ("format_ident!", "parse_quote!") and kind in ("ident-new", "parse-quote"):
                 pass
-            out.append(Site(f, b, kind, prod, t.get("line"), t.get("mac"), name, recv, detail=t))
+            st = Site(f, b, kind, prod, t.get("line"), t.get("mac"), name, recv, detail=t)
+            st.alias = alias
+            out.append(st)
     return out
 
 
@@ -191,6 +210,25 @@ def _panic_guard(f, b, tb):
             return short_term(tb.operand(t["op"]), 60)
         cur = p
     return ""
+
+
+def _panic_guard_term(f, b, tb):
+    """like _panic_guard, the term itself"""
+    seen = set()
+    cur = b
+    while cur not in seen:
+        seen.add(cur)
+        ps = f.pred(cur)
+        if len(ps) != 1:
+            return None
+        p = ps[0]
+        t = f.blocks[p]["term"]
+        if t["k"] == "switch":
+            if mir.is_log(t):
+                return None
+            return tb.operand(t["op"])
+        cur = p
+    return None
 
 
 def _len_base(tb, op):
@@ -456,12 +494,21 @@ def run_census(facts, res, rid, crates, roots, triage, class_rules, prop, findin
     regrouped = {}
     for (root, kind), ss in sorted(pending.items()):
         for s in ss:
-            chosen = root
+            chosen, ckind = root, kind
+            hit = False
             for cand in s.roots():
                 if s.key(cand) in triage or norm_key("%s/%s/*" % (cand, kind)) in triage:
-                    chosen = cand
+                    chosen, hit = cand, True
                     break
-            regrouped.setdefault((chosen, kind), []).append(s)
+            if not hit and s.alias:
+                # the same hazard in another spelling: audited under the other kind
+                ak, ap = s.alias
+                for cand in s.roots():
+                    if norm_key("%s/%s/%s" % (cand, ak, ap)) in triage or norm_key("%s/%s/*" % (cand, ak)) in triage:
+                        chosen, ckind = cand, ak
+                        s.kind, s.producer = ak, ap
+                        break
+            regrouped.setdefault((chosen, ckind), []).append(s)
     for (root, kind), ss in sorted(regrouped.items()):
         rest = []
         # exact rows first (groups with mixed statuses are triaged site by site)
